@@ -46,6 +46,13 @@ def switch_sets(table, rng, tier, warn_class):
     return sets
 
 
+MULTI_SWITCH_INPUT = (b"SCHEMA s;\nTYPE col = ENUMERATION OF (red, green);\nEND_TYPE;\nTYPE fin = ENUMERATION OF (matt, gloss);\nEND_TYPE;\n"
+                      b"TYPE deco = SELECT (col, fin);\nEND_TYPE;\nFUNCTION f(a : INTEGER; b : INTEGER) : INTEGER;\n  RETURN (a);\nEND_FUNCTION;\n"
+                      b"ENTITY p;\n  a : INTEGER;\n  r : REAL;\n  d : deco;\nDERIVE\n  x : INTEGER := f(a);\nWHERE\n  w1 : SELF.r > 1.0e-40;\n"
+                      b"  w2 : SELF.d.nosuch > 0;\nEND_ENTITY;\nENTITY c SUBTYPE OF (p);\n  SELF\\p.a : INTEGER;\nUNIQUE\n  u1 : SELF\\p.a;\nEND_ENTITY;\n"
+                      b"END_SCHEMA;\n")
+
+
 def observed(r, table):
     d, other = X.parse_stderr(r["err"], table)
     return {"status": X.status_of(r["rc"]), "diags": d, "other": other}
@@ -430,6 +437,44 @@ def run(ctx):
                           "class downcast",
                           {"input_text": wc_.data.decode(), "input_hex": wc_.data.hex(), "input_file": wc_.path(),
                            "command": f"check-express -{o_} downcast {wc_.path()}", "switches": [[o_, "downcast"]]})
+    # command lines with two and three switches, in every order, over classes that fire in the input (limits, invalid_case,
+    # unnecessary_qualifiers) and classes that do not (downcast, indexing): the diagnostics of class X that are printed depend only on
+    # the LAST switch naming X - not on the other switches, not on their order (C20_switch_with_without from the second switch on)
+    if not ctx.violations:
+        ms = X.Case("multi_switch", MULTI_SWITCH_INPUT, [], "valid", [], "accept", True)
+        classes = ["limits", "invalid_case", "unnecessary_qualifiers", "downcast", "indexing"]
+        pool = [(o_, c_) for c_ in classes for o_ in ("w", "i")]
+        single = {sw_: observed(X.run_tool(b, "check-express", ms, [sw_], ctx.work), table) for sw_ in pool}
+        lists = [[a_, b_] for a_ in pool for b_ in pool]
+        triples = [[a_, b_, c_] for a_ in pool for b_ in pool for c_ in pool]
+        import random as _rnd
+        trng = _rnd.Random(f"multiswitch:{ctx.seed}")
+        lists += triples if big else trng.sample(triples, 150)
+        res_ms = X.run_many(b, [("check-express", ms, l_) for l_ in lists], ctx.work)
+        of_class = lambda ob, cl: sorted(str(d) for d in ob["diags"] if table.cls(d[0]) == cl)
+        classless = lambda ob: sorted(str(d) for d in ob["diags"] if table.cls(d[0]) is None)
+        for l_, r_ in zip(lists, res_ms):
+            ob_ = observed(r_, table)
+            ctx.count(1, key=("multi-switch", tuple(l_)))
+            bad = None
+            if ob_["status"] != single[l_[-1]]["status"]:
+                bad = f"exit status {ob_['status']}, with the last switch alone {single[l_[-1]]['status']}"
+            elif classless(ob_) != classless(single[l_[-1]]):
+                bad = f"class-less warnings {classless(ob_)} vs {classless(single[l_[-1]])} with one switch"
+            else:
+                for cl in classes:
+                    last = next((sw_ for sw_ in reversed(l_) if sw_[1] == cl), None)
+                    ref = single[last] if last else single[next(sw_ for sw_ in pool if sw_[1] != cl and sw_[1] not in [x[1] for x in l_] or sw_[1] != cl)]
+                    if of_class(ob_, cl) != of_class(ref, cl):
+                        bad = (f"warnings of class {cl}: {of_class(ob_, cl) or 'none'}; the last switch naming {cl} is "
+                               f"{('-' + last[0] + ' ' + cl) if last else 'none (class untouched)'}, under which alone they are {of_class(ref, cl) or 'none'}")
+                        break
+            if bad:
+                cmd = "check-express " + " ".join(f"-{o_} {c_}" for o_, c_ in l_) + " " + ms.path()
+                ctx.violation("switch-order-dependence", f"`{cmd}`: {bad}",
+                              {"input_file": ms.path(), "input_text": ms.data.decode("latin-1"), "input_hex": ms.data.hex(), "command": cmd,
+                               "switches": [list(x) for x in l_]})
+                break
     # unknown class: usage + exit 2, nothing about the file
     mc = X.Case("u", b"SCHEMA s;\nEND_SCHEMA;\n", [], "valid", [], "accept")
     r = X.run_tool(b, "check-express", mc, [("w", "no_such_class")], ctx.work)
